@@ -484,7 +484,7 @@ func propC14(r *Run, w *World) {
 			case p.HasLit(sum+" != 0") && p.HasLit(sum+" != 1"):
 				r.Check(isErr, key+" several classes", ret.Pos(), "rejected", "a line mixing delete/watch/syscall flags is accepted")
 			case p.HasLit(sum + " == 1"):
-				if p.HasLit(sysTerm + " > 0") {
+				if p.HasLit(sysTerm + " != 0") {
 					pz, az := "p0.Prepend == zero(flags.addFlag)", "p0.Append == zero(flags.addFlag)"
 					neither := p.HasLit(pz) && p.HasLit(az)
 					both := p.HasLit(NegLit(pz)) && p.HasLit(NegLit(az))
